@@ -16,6 +16,12 @@ On every run:
      (state before, outcome, state after) must lie in the model's post set of the class's generated program
      (correspondence, ck.run_model) and satisfy the property (oracle below, independent of the model);
   4. every static refutation is confirmed dynamically (concrete class, phase, fault index k, fault kind = replay).
+  5. part 2, "a closed instrument performs no device I/O": every @rpc_method (other than open/close) of every class
+     and every helper it calls is regenerated as a term of `mprog` into coq/gen/C19Methods.v; one obligation
+     `closed_safe <method> = true` per (class, method), verdicts computed by Coq, `_closed_safe` / `_unguarded`
+     lemmas emitted accordingly; dynamically EVERY rpc method is called on the closed instrument (arguments
+     synthesised from the annotations): no call may reach the fake transport, change is_open()/the link or create a
+     resource, and the observed outcome (normal / exception) must be one the method's program allows.
 """
 import importlib
 import inspect
@@ -36,6 +42,8 @@ GEN = os.path.join(common.COQ, "gen", "C19Drivers.v")
 # run_model / model_eval write `Require Import QV.<corr_module>.`: the second Require makes the generated programs
 # visible to the case files (kept out of theories/C19/Corr.v so that the theory never depends on generated text).
 CORR = "C19.Corr.\nRequire Import QVgen.C19Drivers"
+GEN_M = os.path.join(common.COQ, "gen", "C19Methods.v")
+CORR_M = "C19.Corr.\nRequire Import QVgen.C19Methods"
 
 FAULT_KINDS = ("timeout", "instr", "oserror", "malformed")
 READS = ("read", "read_until", "read_until_timeout")
@@ -104,6 +112,31 @@ def compute_verdicts(res, scratch):
     if set(verd) != {e["ident"] for e in res["classes"]} or set(wit) != set(verd):
         raise RuntimeError("could not parse Coq's verdict table (%d/%d/%d)" % (len(verd), len(wit), len(res["classes"])))
     return progs, verd, wit
+
+
+def compute_method_verdicts(mres, scratch):
+    """C19Methods.v: programs -> verdict table by vm_compute -> programs + one Lemma per method"""
+    progs = TR.emit_method_programs(mres, common.REPO)
+    with open(GEN_M, "w") as f:
+        f.write(progs)
+    rc, out = coqc(GEN_M)
+    if rc != 0:
+        raise RuntimeError("generated method programs do not compile:\n" + out[-3000:])
+    ev = os.path.join(scratch, "c19_meval.v")
+    with open(ev, "w") as f:
+        f.write("From Coq Require Import List Bool NArith String.\nImport ListNotations.\n"
+                "Require Import QV.C19.Model QVgen.C19Methods.\nEval vm_compute in method_verdicts.\n")
+    rc, out = coqc(ev)
+    if rc != 0:
+        raise RuntimeError("method verdict evaluation failed:\n" + out[-3000:])
+    verd = {m.group(1): (m.group(2) == "true", m.group(3) == "true", m.group(4) == "true")
+            for m in re.finditer(r'\("(\w+)"%string,\s*\((true|false),\s*(true|false),\s*(true|false)\)\)', out)}
+    want = {m["ident"] for r in mres.values() for m in r["methods"]}
+    if set(verd) != want:
+        raise RuntimeError("could not parse Coq's method verdict table (%d/%d)" % (len(verd), len(want)))
+    with open(GEN_M, "w") as f:
+        f.write(progs + TR.emit_method_obligations(mres, verd))
+    return verd
 
 
 # ------------------------------------------------------------------------------------------------------
@@ -284,16 +317,13 @@ def make_instance(entry):
             ann = p.annotation
             if "transport" in name or ann is str:
                 args[name] = "serial:COM1"
-            elif ann is int:
-                args[name] = 1
-            elif ann is float:
-                args[name] = 1.0
-            elif ann is bool:
-                args[name] = False
-            elif inspect.isclass(ann) and issubclass(ann, enum.Enum):
-                args[name] = list(ann)[0]
             else:
-                args[name] = "x"
+                try:
+                    import typing
+                    hints = typing.get_type_hints(cls.__init__)
+                    args[name] = synth(hints.get(name, ann if not isinstance(ann, str) else inspect.Parameter.empty), name)
+                except Exception:  # noqa: BLE001
+                    args[name] = "x"
         if "kwargs" in spec:
             args.update(spec["kwargs"](entry["live"]))
         inst = cls(ctx, "c19dev", **args)
@@ -376,6 +406,154 @@ def closed_instrument_io(entry):
     return tried, ft.n, list(ft.log[:10]), bool(inst.is_open()), bool(ft._is_open)
 
 
+class _Uncallable(Exception):
+    pass
+
+
+def synth(ann, name="", depth=0):
+    """a value for a parameter from its annotation (`typing` constructs, enums, named tuples)"""
+    import enum
+    import typing
+    if depth > 4:
+        raise _Uncallable("annotation nested too deeply")
+    if ann is inspect.Parameter.empty or ann is typing.Any:
+        return 1
+    if ann is bool:
+        return True
+    if ann is int:
+        return 1
+    if ann is float:
+        return 1.0
+    if ann is str:
+        return "A"
+    if ann is bytes:
+        return b"\x01"
+    if ann is type(None):
+        return None
+    origin = typing.get_origin(ann)
+    args = typing.get_args(ann)
+    if origin is typing.Union:
+        for a in args:
+            if a is not type(None):
+                return synth(a, name, depth + 1)
+        return None
+    if origin in (list, typing.List) or (origin is not None and getattr(origin, "__name__", "") in
+                                         ("Sequence", "Iterable", "Collection", "MutableSequence")):
+        return [synth(args[0], name, depth + 1)] if args else [1]
+    if origin is tuple:
+        if len(args) == 2 and args[1] is Ellipsis:
+            return (synth(args[0], name, depth + 1),)
+        return tuple(synth(a, name, depth + 1) for a in args)
+    if origin is dict:
+        return {synth(args[0], name, depth + 1): synth(args[1], name, depth + 1)} if args else {}
+    if origin is set:
+        return {synth(args[0], name, depth + 1)} if args else set()
+    if origin is typing.Literal:
+        return args[0]
+    if ann in (list, tuple, dict, set):
+        return ann()
+    if inspect.isclass(ann):
+        if issubclass(ann, enum.Enum):
+            return list(ann)[0]
+        if issubclass(ann, tuple) and hasattr(ann, "_fields"):
+            hints = typing.get_type_hints(ann)
+            return ann(*[synth(hints.get(f, int), f, depth + 1) for f in ann._fields])
+        if ann.__module__ == "numpy" and ann.__name__ == "ndarray":
+            import numpy
+            return numpy.zeros(2)
+        try:
+            return ann()
+        except Exception:  # noqa: BLE001
+            pass
+        try:    # a plain class: build it from its own constructor annotations
+            hints = typing.get_type_hints(ann.__init__)
+            kw = {pn: synth(hints.get(pn, inspect.Parameter.empty), pn, depth + 1)
+                  for pn, p in list(inspect.signature(ann.__init__).parameters.items())[1:]
+                  if p.default is p.empty and p.kind not in (p.VAR_POSITIONAL, p.VAR_KEYWORD)}
+            return ann(**kw)
+        except _Uncallable:
+            raise
+        except Exception as e:  # noqa: BLE001
+            raise _Uncallable("no value for annotation %s (%s)" % (getattr(ann, "__name__", ann), type(e).__name__))
+    raise _Uncallable("no value for annotation %r" % (ann,))
+
+
+def rpc_method_names(cls):
+    """live enumeration: @rpc_method functions defined by driver code (not by qmi.core), except open/close"""
+    names = []
+    for n in sorted(dir(cls)):
+        f = inspect.getattr_static(cls, n, None)
+        if inspect.isfunction(f) and getattr(f, "_rpc_method", False) and n not in ("open", "close") \
+                and not f.__module__.startswith("qmi.core."):
+            names.append(n)
+    return names
+
+
+def closed_method_calls(entry, none_when_closed):
+    """call EVERY rpc method of the class on a closed instrument (arguments synthesised from annotations);
+    observe: outcome, exception class, transport calls that got through, state afterwards, resources created"""
+    import signal
+    import typing
+    from qmi.core.exceptions import QMI_InvalidOperationException
+    cls = getattr(importlib.import_module(entry["module"]), entry["class"])
+    inst, ft = make_instance(entry)
+    res_init = {a: repr(type(getattr(inst, a, None)).__name__) for a in none_when_closed
+                if getattr(inst, a, None) is not None}
+    out = {"resources_present_after_construction": res_init, "calls": []}
+
+    class _Hang(BaseException):
+        pass
+
+    def on_alarm(signum, frame):
+        raise _Hang()
+
+    signal.signal(signal.SIGALRM, on_alarm)
+    for n in rpc_method_names(cls):
+        f = inspect.getattr_static(cls, n)
+        rec = {"method": n}
+        try:
+            try:
+                hints = typing.get_type_hints(f)
+            except Exception:  # noqa: BLE001
+                hints = {}
+            kwargs = {}
+            for pn, p in list(inspect.signature(f).parameters.items())[1:]:
+                if p.kind in (p.VAR_POSITIONAL, p.VAR_KEYWORD) or p.default is not p.empty:
+                    continue
+                kwargs[pn] = synth(hints.get(pn, p.annotation if not isinstance(p.annotation, str) else inspect.Parameter.empty), pn)
+        except _Uncallable as e:
+            rec.update({"status": "uncallable", "reason": str(e)})
+            out["calls"].append(rec)
+            continue
+        ft.begin({})
+        rec["args"] = repr(kwargs)[:120]
+        signal.setitimer(signal.ITIMER_REAL, 3.0)
+        try:
+            getattr(inst, n)(**kwargs)
+            rec.update({"out": "N", "exc": None, "invalid_op": False})
+        except _Hang:
+            rec.update({"out": "H", "exc": "hang (> 3 s)", "invalid_op": False})
+        except Exception as e:  # noqa: BLE001
+            rec.update({"out": "X", "exc": type(e).__name__, "invalid_op": isinstance(e, QMI_InvalidOperationException),
+                        "msg": str(e)[:100]})
+        finally:
+            signal.setitimer(signal.ITIMER_REAL, 0)
+        rec["status"] = "called"
+        rec["touched"] = ft.n
+        rec["log"] = list(ft.log[:8])
+        rec["post"] = [bool(inst.is_open()), bool(ft._is_open)]
+        rec["resources"] = [a for a in none_when_closed if getattr(inst, a, None) is not None]
+        out["calls"].append(rec)
+        if ft.n or rec["post"] != [False, False] or rec["resources"] or rec["out"] == "H":
+            for a in rec["resources"]:       # stop what was started, then continue on a fresh instance
+                try:
+                    getattr(inst, a).cancel()
+                except Exception:  # noqa: BLE001
+                    pass
+            inst, ft = make_instance(entry)
+    return out
+
+
 def dyn_class(entry, tier, seed=0):
     """everything dynamic for one class (runs in a forked child)"""
     time.sleep = lambda s: None
@@ -449,6 +627,17 @@ def dyn_class(entry, tier, seed=0):
     except Exception as e:  # noqa: BLE001
         r["closed_io"] = None
         r["closed_io_error"] = "%s: %s" % (type(e).__name__, e)
+    try:
+        r["closed_methods"] = closed_method_calls(entry, entry.get("none_when_closed", []))
+        # the None-able resources must also be gone after an open/close cycle
+        inst, ft = make_instance(entry)
+        inst.open()
+        inst.close()
+        r["closed_methods"]["resources_present_after_open_close"] = [
+            a for a in entry.get("none_when_closed", []) if getattr(inst, a, None) is not None]
+    except Exception as e:  # noqa: BLE001
+        r["closed_methods"] = None
+        r["closed_methods_error"] = "%s: %s" % (type(e).__name__, e)
     return r
 
 
@@ -537,6 +726,128 @@ def static_kinds(which, wits):
     return kinds
 
 
+def method_part(ck, classes, dyn, mres, mverd, gen_ok, not_covered):
+    """per-method obligations `closed_safe m = true` + every rpc method really called on the closed instrument"""
+    n_safe, failed, unguarded_known = 0, [], []
+    terms, metas = [], []
+    uncallable, outcomes = [], {}
+    n_methods = n_called = 0
+    for e in classes:
+        r = mres.get(e["ident"])
+        if r is None:
+            continue
+        d = dyn[e["ident"]].get("closed_methods") or {"calls": []}
+        if dyn[e["ident"]].get("closed_methods") is None and dyn[e["ident"]]["status"] == "ok":
+            not_covered.append({"class": e["class"], "config": e["config"], "part": "dynamic closed-method calls",
+                                "reason": dyn[e["ident"]].get("closed_methods_error", "not run")})
+        calls = {c["method"]: c for c in d["calls"]}
+        # tie: the translator's method list = the live class's rpc methods
+        live, stat = set(calls), {m["name"] for m in r["methods"]} | {x["name"] for x in r["skipped"]}
+        if calls and live != stat:
+            ck.report("tie:translator-live-mismatch:methods:%s:%s" % (e["ident"], digits_as_letters(e["ident"])),
+                      "rpc methods of %s: translator and Python disagree (only static: %s, only live: %s)" % (
+                          e["class"], sorted(stat - live)[:5], sorted(live - stat)[:5]),
+                      {"broken": "translator t_c19_openclose (method discovery)", "class": e["class"]}, found_input=False)
+        if r["skipped"]:
+            reasons = sorted({x["reason"] for x in r["skipped"]})
+            ck.report("tie:translator:methods:%s:%s" % (e["ident"], digits_as_letters(e["ident"])),
+                      "%d rpc method(s) of %s cannot be translated (broken tie): %s ... : %s" % (
+                          len(r["skipped"]), e["class"], [x["name"] for x in r["skipped"]][:6], reasons[:3]),
+                      {"broken": "translator t_c19_openclose (methods)", "class": e["class"],
+                       "methods": [x["name"] for x in r["skipped"]], "reasons": reasons}, found_input=False)
+        for x in r["skipped"]:
+            not_covered.append({"class": e["class"], "config": e["config"], "part": "static method %s" % x["name"],
+                                "reason": x["reason"]})
+            rec = calls.get(x["name"])     # search: the untranslatable method is still called on the closed instrument
+            if rec is not None and rec["status"] == "called" and (
+                    rec["touched"] or rec["post"] != [False, False] or rec["resources"] or rec["out"] == "H"):
+                ck.report("%s.%s:closed-instrument-unguarded:%s" % (e["ident"], x["name"],
+                                                                    digits_as_letters(e["ident"] + x["name"])),
+                          "%s.%s() called on a CLOSED instrument: %d transport call(s) reached the device %s; afterwards "
+                          "is_open()=%s, link held=%s" % (e["class"], x["name"], rec["touched"], rec["log"],
+                                                          rec["post"][0], rec["post"][1]),
+                          {"class": e["class"], "module": e["module"], "ident": e["ident"], "config": e["config"],
+                           "live": e["live"], "phase": "closed-method", "method": x["name"], "observed": rec})
+        # the assumption behind `if self.<resource> is not None`: absent whenever the instrument is closed
+        for where in ("resources_present_after_construction", "resources_present_after_open_close"):
+            if d.get(where):
+                ck.report("tie:resource-none-when-closed:%s:%s" % (e["ident"], digits_as_letters(e["ident"])),
+                          "%s: resource attribute(s) %s are not None on a closed instrument (%s): the translator's "
+                          "assumption for `if self.<resource> is not None` does not hold" % (e["class"], d[where], where),
+                          {"broken": "assumption none_when_closed", "class": e["class"], "attrs": d[where]},
+                          found_input=False)
+        for m in r["methods"]:
+            n_methods += 1
+            safe, may_n, may_x = mverd[m["ident"]]
+            rec = calls.get(m["name"])
+            dyn_bad, foreign = [], False
+            if rec is not None and rec["status"] == "called":
+                n_called += 1
+                cls_ = "normal" if rec["out"] == "N" else "hang" if rec["out"] == "H" else \
+                    "QMI_InvalidOperationException" if rec["invalid_op"] else rec["exc"]
+                outcomes[cls_] = outcomes.get(cls_, 0) + 1
+                ck.count("closed-method:" + ("refused (invalid operation)" if rec.get("invalid_op") else
+                                             "returns normally" if rec["out"] == "N" else "other exception"))
+                ck.note_case((e["ident"], "closed-method", m["name"]), True)
+                if rec["out"] in ("N", "X"):
+                    terms.append("(%s, %s)" % (m["ident"], "ONormal" if rec["out"] == "N" else "OExc"))
+                    metas.append((e, m, rec))
+                if rec["touched"]:
+                    dyn_bad.append("%d transport call(s) reached the device %s" % (rec["touched"], rec["log"]))
+                if rec["post"] != [False, False]:
+                    dyn_bad.append("afterwards is_open()=%s, link held=%s" % tuple(rec["post"]))
+                if rec["resources"]:
+                    dyn_bad.append("resource(s) %s created" % rec["resources"])
+                if rec["out"] == "H":
+                    dyn_bad.append("the call did not return within 3 s")
+                foreign = rec["out"] == "X" and not rec["invalid_op"]
+            elif rec is not None:
+                uncallable.append({"class": e["ident"], "method": m["name"], "reason": rec["reason"]})
+            key = "%s.%s:closed-instrument-unguarded:%s" % (e["ident"], m["name"], digits_as_letters(e["ident"] + m["name"]))
+            rep = {"class": e["class"], "module": e["module"], "ident": e["ident"], "config": e["config"],
+                   "live": e["live"], "phase": "closed-method", "method": m["name"], "observed": rec,
+                   "method_program": m["prog"], "defined_at": m["def"]}
+            if safe:
+                n_safe += 1
+                if dyn_bad:
+                    ck.report(key, "%s.%s() [%s] called on a CLOSED instrument: %s - although the generated method "
+                              "program is closed_safe" % (e["class"], m["name"], m["def"], "; ".join(dyn_bad)), rep)
+                continue
+            confirmed = bool(dyn_bad) or foreign
+            what = "%s.%s() [%s]: on a closed instrument an operation that is not guarded by a state check or by the " \
+                   "transport is reachable (closed_safe = false)" % (e["class"], m["name"], m["def"])
+            if confirmed:
+                ck.report(key, what + "; confirmed on the real class: " + ("; ".join(dyn_bad) or
+                          "raises %s instead of the invalid-operation error" % rec["exc"]), rep)
+                known = ck.known_open(norm(key)) is not None
+            else:
+                ck.report(key + ":static-only", what + "; not confirmed on the real class (%s)" % (
+                    "not callable: " + rec["reason"] if rec is not None and rec["status"] != "called" else
+                    "no transport call, no state change, %s" % ("refused" if rec and rec.get("invalid_op") else
+                                                                  "outcome %s" % (rec or {}).get("out"))),
+                    dict(rep, broken="generated obligation closed_safe %s" % m["ident"]), found_input=False)
+                known = ck.known_open(norm(key + ":static-only")) is not None
+            (unguarded_known if known else failed).append(m["ident"])
+    ck.add_generated_obligations(n_safe + len(failed), n_safe if gen_ok else 0,
+                                 failed if gen_ok else ["C19Methods.v does not compile"])
+    ck.coverage["method_obligations"] = {
+        "rpc_methods_translated": n_methods, "closed_safe_proved": n_safe,
+        "unguarded_listed_as_known_finding(counted separately)": unguarded_known, "unguarded_not_listed": failed,
+        "called_on_closed_instrument": n_called, "outcomes_on_closed_instrument": outcomes,
+        "not_callable(no argument could be synthesised)": uncallable,
+        "resources_assumed_none_when_closed": {i: r["none_when_closed"] for i, r in mres.items() if r["none_when_closed"]},
+        "attribute_kinds": {i: {k: v for k, v in r["kinds"].items() if v == "resource"} for i, r in mres.items()
+                            if any(v == "resource" for v in r["kinds"].values())},
+        "wrapper_fact_problems": sorted({p for r in mres.values() for p in r["wrapper_facts"]}),
+        "transport_io_methods_refusing_when_closed": getattr(TR.translate_all_methods, "survey", {}),
+        "translator_notes": sorted({n for r in mres.values() for n in r["notes"]})}
+    for p in ck.coverage["method_obligations"]["wrapper_fact_problems"]:
+        ck.report("tie:wrapper-shape:" + re.sub(r"[^A-Za-z_.]+", "-", p)[:60],
+                  "a protocol class no longer reaches the device only through the transport's I/O methods: " + p,
+                  {"broken": "wrapper_facts of t_c19_openclose", "fact": p}, found_input=False)
+    return terms, metas
+
+
 def run(ck):
     ck.theory_dir = THEORY
     ck.trusted = [
@@ -548,6 +859,13 @@ def run(ck):
         "stub context unittest.mock.MagicMock(spec=QMI_Context), as in the repository's own driver tests",
     ]
     ck.assumptions = [
+        "part 2 (closed instrument): an operation on the transport is refused by the transport itself when it is closed "
+        "(QMI_Transport._check_is_open; surveyed per transport method in the evidence, the transports are C13's subject); "
+        "a protocol object built around the link (ScpiProtocol, AptProtocol, NKTPhotonicsInterbusProtocol) reaches the "
+        "device only through that transport's I/O methods (checked by AST on every run); a None-able resource attribute "
+        "(Montana burst timer) is None whenever the instrument is closed (checked on the real class on every run); "
+        "attribute reads, property getters and functions that are not methods of the class do not touch the device "
+        "unless they are handed the link",
         "a statement that is not one of the interpreted calls never changes QMI_Instrument._is_open or the transport's "
         "open state (helpers are inlined when they mention them; a link passed to another object is not followed)",
         "one device link per instrument: bristol_871a is covered once per single-link configuration, not with both "
@@ -601,10 +919,25 @@ def run(ck):
         ck.proof_ok = False
         ck.proof_log += log
         return ck.finish("theory does not build")
+    ok, log = common.build_vo([os.path.join(common.COQ, "theories", THEORY, "ProofsRpc.v")])
+    if not ok:
+        ck.proof_ok = False
+        ck.proof_log += log
     progs, verd, wit = compute_verdicts(res, scratch)
     with open(GEN, "w") as f:
         f.write(progs + TR.emit_obligations(res, verd))
-    ck.build_theory(THEORY, extra_gen=[GEN])
+    # part 2: every rpc method of every class
+    try:
+        mres = TR.translate_all_methods(common.REPO, res)
+        mverd = compute_method_verdicts(mres, scratch)
+    except (TR.TranslationError, SyntaxError, OSError, RecursionError, RuntimeError) as e:
+        ck.proof_ok = False
+        ck.report("tie:translator:methods", "the rpc methods could not be translated / evaluated (broken tie): %s" % e,
+                  {"broken": "translator t_c19_openclose (methods)", "error": str(e)[-2000:]}, found_input=False)
+        mres, mverd = {}, {}
+    for e in classes:
+        e["none_when_closed"] = mres.get(e["ident"], {}).get("none_when_closed", [])
+    ck.build_theory(THEORY, extra_gen=[GEN] + ([GEN_M] if mres else []))
     gen_ok = "generated obligation file" not in ck.proof_log
 
     # 3. dynamic
@@ -738,7 +1071,22 @@ def run(ck):
                                            "scenarios": len(dyn[e["ident"]]["scenarios"])} for e in classes}
     ck.coverage["translator_notes"] = [n for e in classes for n in e.get("notes", [])]
 
+    # 4b. part 2: "a closed instrument performs no device I/O" — per-method obligations and the dynamic tie
+    mterms, mmetas = method_part(ck, classes, dyn, mres, mverd, gen_ok, not_covered)
+
     # 5. correspondence: every observed call lies in post of the generated program
+    if mterms:
+        mbad = ck.run_model(CORR_M, "check_mcase", mterms, "mcase", shard=400)
+        ck.coverage["method_correspondence_disagreements"] = len(mbad)
+        for idx in mbad[:20]:
+            e, m, rec = mmetas[idx]
+            ck.report("corr:%s.%s:%s" % (e["ident"], m["name"], digits_as_letters(e["ident"] + m["name"])),
+                      "%s.%s() on a closed instrument %s, which the generated method program does not allow" % (
+                          e["class"], m["name"], "returned normally" if rec["out"] == "N" else "raised " + str(rec["exc"])),
+                      {"class": e["class"], "module": e["module"], "ident": e["ident"], "config": e["config"],
+                       "live": e["live"], "phase": "closed-method", "method": m["name"], "observed": rec,
+                       "method_program": m["prog"], "broken": "correspondence C19.Corr.check_mcase"},
+                      found_input=False)
     bad = ck.run_model(CORR, "check_case", terms, "case", shard=300)
     ck.coverage["correspondence_disagreements"] = len(bad)
     seen = set()
@@ -780,7 +1128,21 @@ def replay(rep):
         print("class %s is no longer translated" % c["ident"])
         return 1
     time.sleep = lambda s: None
-    plan = {int(k): v for k, v in c["plan"].items()}
+    plan = {int(k): v for k, v in c.get("plan", {}).items()}
+    if c["phase"] == "closed-method":
+        mres = TR.translate_all_methods(common.REPO, res).get(c["ident"], {})
+        entry["none_when_closed"] = mres.get("none_when_closed", [])
+        d = closed_method_calls(entry, entry["none_when_closed"])
+        rec = next((x for x in d["calls"] if x["method"] == c["method"]), None)
+        prog = next((m["prog"] for m in mres.get("methods", []) if m["name"] == c["method"]), None)
+        print("class %s, method %s called on a CLOSED instrument" % (c["ident"], c["method"]))
+        print("generated method program:", prog)
+        print("observed:", rec)
+        bad = rec is not None and rec.get("status") == "called" and (
+            rec["touched"] or rec["post"] != [False, False] or rec["resources"] or rec["out"] == "H")
+        print("oracle:", "the closed instrument touched the device / changed state / created a resource" if bad
+              else "no device access, state unchanged")
+        return 1 if bad else 0
     if c["phase"] == "closed-io":
         cio = closed_instrument_io(entry)
         print("closed instrument, rpc methods tried / device calls / log / is_open / held:", cio)
